@@ -40,6 +40,10 @@ def smoother_refine(ctx, cfg, d, field, u0s, t0, hs):
     for i, h in enumerate(hs):
         new = solver.step(state, dt=jnp.asarray(h), damp=cfg.damp)
         s0 = sm.state_slices(cfg, state)
+        if not sm.state_is_finite(new):
+            sig, why = sm.nonfinite_signature(ctx, cfg, stepper, s0, t, F(h))
+            ctx.violation(sig, why, dict(case, step=i))
+            return objs if "objs" in dir() else None
         ov = None
         if cfg.solver.startswith("dynamic"):
             osq = np.atleast_1d(np.asarray(new.output_scale, dtype=np.float64))
@@ -267,7 +271,7 @@ def fixedpoint_vs_fixedinterval(ctx, cfg, d, field, u0s, t0, t1, tol):
         for j, ((ma, Ca), (mb, Cb)) in enumerate(zip(a, b)):
             n = len(ma)
             sv = np.array([Ca[i, i] + Cb[i, i] + (ma[i] * Fraction(1, 10**8)) ** 2 + Fraction(1, 10**60) for i in range(n)], dtype=object)
-            dm = sm._dev_vec(mb, ma, np.abs(sm.tofloat(ma)) + np.sqrt(sm.tofloat(sv)))
+            dm = sm._dev_vec(mb, ma, np.abs(sm.tofloat(ma)) + np.sqrt(sm.tofloat(sv)) + 1e-6 * np.max(np.abs(sm.tofloat(ma)), initial=0.0))
             dc = sm._dev_cov(Cb, Ca, sv)
             ctx.dev("fp-vs-fi.mean", dm, 1e-6, case=dict(case, checkpoint=tc), sig=f"fp-vs-fi:{cfg.fact}:{cfg.solver}:{cfg.lin}:mean", what=f"fixed-point checkpoint mean differs from fixed-interval off-grid marginal by {dm:.2e}")
             ctx.dev("fp-vs-fi.cov", dc, 1e-5, case=dict(case, checkpoint=tc), sig=f"fp-vs-fi:{cfg.fact}:{cfg.solver}:{cfg.lin}:cov", what=f"fixed-point checkpoint covariance differs from fixed-interval off-grid marginal by {dc:.2e}")
